@@ -60,7 +60,7 @@ func machine(tp tuple, peerAtCtor, gen bool) engine.Machine[*hstate] {
 	d, dPeer := tp.dA.v, tp.dB.v
 	PPeer := ref.BaseMul(dPeer)
 	r1, r2 := tp.rA.v, new(big.Int).Add(tp.rA.v, big.NewInt(2)) // ephemeral scalar drawn by Init / by Respond
-	rP := tp.rB.v                                                // the peer's ephemeral scalar (same point offered to Respond and ConfirmResponder)
+	rP := tp.rB.v                                               // the peer's ephemeral scalar (same point offered to Respond and ConfirmResponder)
 	RPeer := ref.BaseMul(rP)
 	R1, R2 := ref.BaseMul(r1), ref.BaseMul(r2)
 	privOwn, errOwn := sm2.NewPrivateKey(b32(d))
